@@ -13,6 +13,8 @@ pub mod c09;
 pub mod c10;
 pub mod c11;
 pub mod c13;
+pub mod c14;
+pub mod c15;
 pub mod c18;
 
 pub fn run(prop: &str, ctx: &mut Ctx) -> bool {
@@ -26,6 +28,8 @@ pub fn run(prop: &str, ctx: &mut Ctx) -> bool {
         "C10" => c10::run(ctx),
         "C11" => c11::run(ctx),
         "C13" => c13::run(ctx),
+        "C14" => c14::run(ctx),
+        "C15" => c15::run(ctx),
         "C18" => c18::run(ctx),
         _ => return false,
     }
@@ -43,6 +47,8 @@ pub fn replay(prop: &str, case: &Value) -> Option<Vec<Failure>> {
         "C10" => c10::replay(case),
         "C11" => c11::replay(case),
         "C13" => c13::replay(case),
+        "C14" => c14::replay(case),
+        "C15" => c15::replay(case),
         "C18" => c18::replay(case),
         _ => return None,
     })
